@@ -168,7 +168,16 @@ func init() {
 	})
 	V("vrtLock", func(fr *frame, a []value) value { return nil })
 	V("vrtUnlock", func(fr *frame, a []value) value { return nil })
-	V("vrtYield", func(fr *frame, a []value) value { fr.i.sched().yield(nil); return nil })
+	V("vrtYield", func(fr *frame, a []value) value {
+		s := fr.i.sched()
+		if Params["FREEYIELD"] == 1 {
+			// a voluntary yield of the harness: any runnable goroutine may continue, at no cost to the preemption bound
+			s.freeYield = true
+			defer func() { s.freeYield = false }()
+		}
+		s.yield(nil)
+		return nil
+	})
 	V("vrtSetPreemptions", func(fr *frame, a []value) value {
 		fr.i.sched().maxPreempt = int(asInt64(a[0]))
 		return nil
